@@ -210,6 +210,19 @@ def check_pair(case, ctx):
             out = call(lambda: fn(p.copy(), q.copy(), t.copy(), threshold=thr))
             if ctx.returned(out, clause="no-exception[threshold=]", route=r):
                 judge_slerp(ctx, r, out.value, p, q, t, thr=thr)
+    # an endpoint typed in whole numbers (the identity as [1, 0, 0, 0], a half turn as [0, 1, 0, 0]) as an int list / int array, either position
+    E_ = [np.array([1, 0, 0, 0]), np.array([0, 1, 0, 0]), np.array([0, 0, -1, 0]), np.array([-1, 0, 0, 0])][int(abs(q[1]) * 1e6) % 4]
+    if abs(float(E_ @ q)) > 1e-6:
+        for r, fn in (("quaternion.slerp", Q.slerp), ("orientation.slerp", O.slerp)):
+            ref_a, ref_b = call(lambda: np.asarray(fn(E_.astype(float), q.copy(), t.copy()), float)), call(lambda: np.asarray(fn(q.copy(), E_.astype(float), t.copy()), float))
+            for lab, mk in (("int list", lambda: E_.tolist()), ("int array", lambda: E_.astype(np.int64))):
+                if lab == "int list" and r == "orientation.slerp":
+                    continue        # (orientation.slerp indexes its arguments as arrays: it takes no lists at all, float or int)
+                oa, ob = call(lambda: np.asarray(fn(mk(), q.copy(), t.copy()), float)), call(lambda: np.asarray(fn(q.copy(), mk(), t.copy()), float))
+                for first, o_, ref_ in ((True, oa, ref_a), (False, ob, ref_b)):
+                    if ref_.ok and ctx.returned(o_, clause="no-exception[whole-number endpoint typed as int]", route=r):
+                        same = o_.value.shape == ref_.value.shape and float(np.abs(o_.value - ref_.value).max()) <= 1e-15
+                        ctx.ok("a whole-number endpoint typed as int gives the path of the same endpoint typed as float", bool(same), {"form": lab, "endpoint": "first" if first else "second", "E": E_}, route=r)
     if case.region != "pair:orthogonal":
         out = call(lambda: (Q.slerp(p.tolist(), q.tolist(), t.tolist()), Q.slerp(p.copy(), q.copy(), t.copy())))
         if ctx.returned(out, route="quaternion.slerp"):
